@@ -2,6 +2,7 @@ package mon
 
 import (
 	"fmt"
+	"math"
 	"reflect"
 	"strings"
 
@@ -620,6 +621,50 @@ func c05Aliased(c *core.Ctx) {
 	if e := u0.IsEqual(mk(mkU(1, 2, "t", "n"))); e != nil {
 		c.Violatef("equal-rejected:deep-embedded", desc, "equal deep-embedded struct leaves compare as %v", e)
 		return
+	}
+	// a struct leaf with very many exported fields: the seventieth (or three-hundredth) counts like the first
+	for _, nf := range []int{70, 300} {
+		fields := make([]reflect.StructField, nf)
+		for i := range fields {
+			fields[i] = reflect.StructField{Name: fmt.Sprintf("F%d", i), Type: reflect.TypeOf(0)}
+		}
+		st := reflect.StructOf(fields)
+		mkW := func(changed int) any {
+			v := reflect.New(st).Elem()
+			for i := 0; i < nf; i++ {
+				v.Field(i).SetInt(int64(1000 + i))
+			}
+			if changed >= 0 {
+				v.Field(changed).SetInt(-1)
+			}
+			return v.Interface()
+		}
+		w0 := mk(mkW(-1))
+		if e := w0.IsEqual(mk(mkW(-1))); e != nil {
+			c.Violatef("equal-rejected:wide-struct", desc, "equal struct leaves of %d exported fields compare as %v", nf, e)
+			return
+		}
+		for _, i := range []int{0, 31, 32, 62, 63, 64, 65, nf - 1, 255 % nf, 256 % nf} {
+			wm := mk(mkW(i))
+			if e1, e2 := w0.IsEqual(wm), wm.IsEqual(w0); e1 == nil || e2 == nil {
+				c.Violatef("difference-missed:wide-struct-field", desc, "struct leaves of %d exported fields differing in field #%d only compare as %v / %v", nf, i, e1, e2)
+				return
+			}
+		}
+	}
+	// a number against not-a-number (on one side only), wherever a float can sit
+	nan := math.NaN()
+	for i, pair := range [][2]any{
+		{1.5, nan}, {math.Inf(1), nan}, {float32(1.5), float32(nan)}, {[]float64{1, 1.5}, []float64{1, nan}}, {[2]float64{1.5, 2}, [2]float64{nan, 2}},
+		{map[string]float64{"k": 1.5}, map[string]float64{"k": nan}}, {PubStruct{A: 1, B: "b", F: 1.5}, PubStruct{A: 1, B: "b", F: nan}},
+		{func() any { f := 1.5; p := &f; return &p }(), func() any { f := nan; p := &f; return &p }()},
+		{stackage.Cond("k", stackage.Eq, 1.5), stackage.Cond("k", stackage.Eq, nan)},
+	} {
+		a, b := mk(pair[0]), mk(pair[1])
+		if e1, e2 := a.IsEqual(b), b.IsEqual(a); e1 == nil || e2 == nil {
+			c.Violatef("difference-missed:number-vs-NaN", desc, "leaves differing in one float (a number on one side, NaN on the other; shape #%d) compare as %v / %v", i, e1, e2)
+			return
+		}
 	}
 	c.Count("aliased-and-deep-embedded")
 }
